@@ -3,6 +3,9 @@
 package config
 
 import (
+	"fmt"
+	"strings"
+
 	"github.com/keep-network/keep-core/config/network"
 	"github.com/keep-network/keep-core/pkg/bitcoin"
 )
@@ -13,6 +16,13 @@ func VerifC44ReadPeers(clientNetwork network.Type) ([]string, error) {
 	return readPeers(clientNetwork)
 }
 
+// VerifC44ReadElectrumUrls lists the embedded default Electrum URLs of the
+// network straight from the embedded file system (independent of the reader
+// function's signature).
 func VerifC44ReadElectrumUrls(n bitcoin.Network) ([]string, error) {
-	return readElectrumUrls(n)
+	file, err := electrumURLs.ReadFile(fmt.Sprintf("_electrum_urls/%s", n))
+	if err != nil {
+		return nil, err
+	}
+	return cleanStrings(strings.Split(string(file), "\n")), nil
 }
